@@ -419,6 +419,52 @@ func c11Rns(r *RunCtx) error {
 			r.Hist("rns", fmt.Sprintf("makeprimary/had=%v/%s", had, res.Out))
 			r.Case("frames", fmt.Sprintf("PStep %s (PMake %s %s) %s %s", preC, tab.sp(msg.Creator), parsed, c11Out(res.Out), postC), desc)
 		}
+		// every other RNS message: it may write the signer's own pointer (a registration does), never anybody else's —
+		// e.g. a transfer is signed by the sender only and must not touch the receiver's pointer
+		others := []sdk.Msg{
+			&rnstypes.MsgTransfer{Creator: Acct(1).String(), Name: "alpha.jkl", Receiver: Acct(4).String()}, // 4 has no pointer yet
+			&rnstypes.MsgRegisterName{Creator: Acct(4).String(), Name: "echo.jkl", Years: 1, Data: "{}", SetPrimary: false},
+			&rnstypes.MsgTransfer{Creator: Acct(4).String(), Name: "echo.jkl", Receiver: Acct(2).String()},
+			&rnstypes.MsgList{Creator: Acct(3).String(), Name: "delta.ibc", Price: sdk.NewInt64Coin("ujkl", 1000)},
+			&rnstypes.MsgBuy{Creator: Acct(1).String(), Name: "delta.ibc"},
+			&rnstypes.MsgBid{Creator: Acct(3).String(), Name: "charlie.jkl", Bid: sdk.NewInt64Coin("ujkl", 500)},
+			&rnstypes.MsgAcceptBid{Creator: Acct(1).String(), Name: "charlie.jkl", From: Acct(3).String()},
+			&rnstypes.MsgRegisterName{Creator: strings.ToUpper(Acct(3).String()), Name: "foxtrot.jkl", Years: 1, Data: "{}", SetPrimary: true},
+			&rnstypes.MsgTransfer{Creator: Acct(2).String(), Name: "bravo.jkl", Receiver: strings.ToUpper(Acct(4).String())},
+		}
+		for _, msg := range others {
+			if msg.ValidateBasic() != nil {
+				r.Hist("rns", "validatebasic-rejects")
+				continue
+			}
+			signer := msg.GetSigners()[0].String()
+			raw := signer
+			if c, ok := msg.(interface{ GetCreator() string }); ok {
+				raw = c.GetCreator()
+			}
+			preC, pre, err := observe()
+			if err != nil {
+				return err
+			}
+			res := e.Run(msg)
+			postC, post, err := observe()
+			if err != nil {
+				return err
+			}
+			desc := map[string]interface{}{"family": "rns", "msg": fmt.Sprintf("%T %+v", msg, msg), "out": res.Out, "err": res.Err, "pre": preC, "post": postC}
+			own := "None"
+			for _, k := range c11Changed(pre, post) {
+				if !c11SameAccount(strings.TrimSuffix(k, "/"), raw) {
+					r.Finding("C11/rns/foreign-primary-changed", fmt.Sprintf("the primary-name pointer %q changed under a %T signed by %s", k, msg, raw), desc)
+				} else if strings.TrimSuffix(k, "/") == signer {
+					own = "(Some " + tab.sid(post[k]) + ")"
+				}
+			}
+			kind := strings.TrimPrefix(fmt.Sprintf("%T", msg), "*types.")
+			r.Count(fmt.Sprintf("rns-other:%s:%s:%s", kind, res.Out, raw), true)
+			r.Hist("rns", fmt.Sprintf("%s/%s", kind, res.Out))
+			r.Case("frames", fmt.Sprintf("PStep %s (POther %s %s %s) %s %s", preC, tab.sp(raw), cBool(res.Out == OutOk), own, c11Out(res.Out), postC), desc)
+		}
 		e.Close()
 	}
 	return nil
